@@ -1,4 +1,5 @@
-import sys, os, argparse, importlib, json, traceback
+import sys, os, argparse, importlib, json, traceback, warnings
+warnings.simplefilter('ignore')
 
 
 def main():
